@@ -42,6 +42,12 @@ def peers(tier):
             out.append(spec)
     if tier == 'quick':
         out = [s for i, s in enumerate(out) if i % 3 == 0]
+    # legal but unusual shapes: an empty name-list (AEAD-only server without MACs, GSSAPI-only server without host keys, ...)
+    for cat in ('kex', 'key', 'enc', 'mac'):
+        spec = {'kn': 'empty-' + cat, 'kex': ['curve25519-sha256'], 'key': ['ssh-ed25519'], 'enc': ['aes256-gcm@openssh.com'],
+                'mac': ['hmac-sha2-256'], 'hk': {}, 'gex': None}
+        spec[cat] = []
+        out.append(spec)
     return out
 
 
